@@ -130,6 +130,9 @@ func (dt DateTime) TryEqual(input Any) (bool, bool) {
 		}
 		return dtComponents[i] == valComponents[i], true
 	}
+	if dateTimeMap[dt.l] == dateTimeMap[val.l] {
+		return true, true // same precision (the layouts differ only by the offset): all components are equal
+	}
 	return false, false
 }
 
@@ -160,6 +163,9 @@ func (dt DateTime) Less(input Any) (Boolean, error) {
 			continue
 		}
 		return dtComponents[i] < valComponents[i], nil
+	}
+	if dateTimeMap[dt.l] == dateTimeMap[val.l] {
+		return false, nil // same precision (the layouts differ only by the offset): the values are equal
 	}
 	return false, ErrMismatchedPrecision
 }
